@@ -6,6 +6,10 @@ import CLModel.Proofs.C11Sound
 import CLModel.Proofs.C11RNest
 import CLModel.Proofs.C12RSep
 import CLModel.Proofs.C12RExample
+import CLModel.Proofs.C11Eq
+import CLModel.Proofs.C12BExample
+import CLModel.Proofs.C11Cache
+import CLModel.Proofs.C11SoundX
 namespace C11
 open Rx PM
 
@@ -170,5 +174,193 @@ example : subOutcome "browser/locales/en-US/**" []
 theorem roundtrip_separator_witness :
     subOutcome "*/*" [] "*.*" [] (T "a/b.c") = .text (T "a.b.c") ∧
     subOutcome "*.*" [] "*/*" [] (T "a.b.c") = .text (T "a.b/c") := by decide +kernel
+
+
+
+
+/-! ### match_sound without the restrictions that were not forced (round 4) -/
+
+/-- **match_sound, general form**: `m.sub(m, path) = path` for EVERY path the matcher matches, i.e. the reported groups, put
+    back into the pattern together with the environment, re-assemble exactly the matched path.  Compared with
+    `match_sound_partial` the environment values may be NESTED patterns (`{l}` = "{l10n_base}/{locale}/": shape `EnvOK`,
+    no `{android_locale}` inside values), a variable may be REPEATED (`C11X.RepN []`: every repetition comes after its first
+    occurrence — what the parser always produces, `C11X.mkMatcher_repN`), and a bound top-level variable only has to be
+    fully bound (`C11X.BoundOK`: the expansion of its value exists); unbound variables are captured from the path.
+    Remaining hypotheses: no `{android_locale}` at top level (FORCED when `locale` is unbound: `match_sound_android_witness`;
+    not proved when it is bound), environment keys distinct and not named like a wildcard group (forced: `s1` as a key makes
+    `Star.expand` return a Pattern), no variable repeated inside one environment value. -/
+theorem match_sound_general_partial {m : Matcher} {path : Text} {d : GroupDict} (henv : EnvOK m.env)
+    (hgood : ∀ k p, (k, Val.pat p) ∈ m.env → NoAndroid p) (hkeys : KeysOnce m.env)
+    (hs : ∀ n ∈ m.pattern.nodes, C11X.NoAndroidNode n) (hrep : C11X.RepN [] m.pattern.nodes) (hb : C11X.BoundOK m)
+    (hw : ∀ k, m.env.lookup (sname k) = none) (h : m.match path = .ok (some d)) :
+    m.sub m path = .ok (some path) := by
+  rw [PM.sub_of_match h, C11X.sub_selfX henv (C11R.goodEnv_of henv hgood) hkeys hs hrep hb hw h]; rfl
+
+/-- the order hypothesis of `match_sound_general_partial` holds for every matcher `Matcher(pattern, env, root)` builds -/
+theorem constructed_matcher_repN {pat : Text} {env : List (Text × Text)} {root : Option Text} {m : Matcher}
+    (h : mkMatcher pat env root = .ok m) : C11X.RepN [] m.pattern.nodes := C11X.mkMatcher_repN h
+
+/-- `{android_locale}` with an UNBOUND locale is forced out of match_sound: the captured text is converted to a locale
+    code and back to the Android form when the pattern is expanded again, so a path whose directory is not in Android
+    form does not come back: "en-US/x" is matched by "{android_locale}/x" and mapped to "en-rUS/x".  (In Android form it
+    does come back: "en-rUS/x".) -/
+theorem match_sound_android_witness :
+    subOutcome "{android_locale}/x" [] "{android_locale}/x" [] (T "en-US/x") = .text (T "en-rUS/x") ∧
+    subOutcome "{android_locale}/x" [] "{android_locale}/x" [] (T "en-rUS/x") = .text (T "en-rUS/x") := by decide +kernel
+
+/-- non-vacuity of `match_sound_general_partial`: a repeated variable (`C12B.repMatcher` = "{l}a/{l}b/*.ftl", l = "l10n/") and a
+    nested value (`C11R.wildMatcher` = "{l}browser/**/*.ftl", l = "{l10n_base}/{locale}/") satisfy the hypotheses -/
+example : (EnvOK C12B.repMatcher.env ∧ KeysOnce C12B.repMatcher.env ∧ C11X.RepN [] C12B.repMatcher.pattern.nodes ∧
+      C11X.BoundOK C12B.repMatcher ∧ (∀ n ∈ C12B.repMatcher.pattern.nodes, C11X.NoAndroidNode n)) ∧
+    C12B.repMatcher.sub C12B.repMatcher (T "l10n/a/l10n/b/x.y.ftl") = .ok (some (T "l10n/a/l10n/b/x.y.ftl")) := by
+  obtain ⟨⟨na, a1⟩, a2⟩ := C12B.repMatcher_ok
+  have hrep : C11X.RepN [] C12B.repMatcher.pattern.nodes := constructed_matcher_repN C12B.repMatcher_is
+  have hb : C11X.BoundOK C12B.repMatcher := by
+    intro name rep v hn hl
+    simp only [C12B.repMatcher, List.mem_cons, List.not_mem_nil, or_false] at hn
+    rcases hn with hn | hn | hn | hn | hn | hn <;> try (cases hn)
+    all_goals
+      have hv : v = Val.pat { nodes := [.lit (T "l10n/")], root := none, prefixLen := 1 } := by
+        simp [C12B.repMatcher, List.lookup] at hl; exact hl.symm
+      subst hv
+      exact ⟨T "l10n/", okEq_spec (by decide +kernel)⟩
+  have hs : ∀ n ∈ C12B.repMatcher.pattern.nodes, C11X.NoAndroidNode n := by
+    intro n hn
+    simp only [C12B.repMatcher, List.mem_cons, List.not_mem_nil, or_false] at hn
+    rcases hn with rfl | rfl | rfl | rfl | rfl | rfl <;> trivial
+  refine ⟨⟨a1.env, a2.keys, hrep, hb, hs⟩, ?_⟩
+  have hm : C12B.repMatcher.match (T "l10n/a/l10n/b/x.y.ftl") =
+      .ok (some [(T "l", some (T "l10n/")), (T "s1", some (T "x.y"))]) := matchIs_spec (by decide +kernel)
+  exact match_sound_general_partial a1.env a2.noAndroid a2.keys hs hrep hb a2.noWildKey hm
+
+/-! ### the round trip with REPEATED variables (round 4) -/
+
+/-- **sub_roundtrip with repeated variables.**  As `sub_roundtrip_star_partial`, for the larger class `C12B.InClassB` on both
+    sides: a fully bound variable may occur several times (`{l}a/{l}b/*.ftl` <-> `ref/a/b/*.ftl`,
+    `l10n/{locale}/x/{locale}.ftl`).  The later occurrences are back-references in the regular expression; the engine
+    treats them like the literal text of the group (`C12B.sim`).  (`C12B.fillableB_of_fillable`: the earlier class is
+    included.)  Still excluded: `{android_locale}`, variables unbound on one side, a repetition inside an environment value. -/
+theorem sub_roundtrip_backref_partial {a b : Matcher} {vs : Nat → Text} {namesa namesb : List Text} {rta rtb : Text}
+    (ha : C12B.FillableB vs a namesa rta) (hb : C12B.FillableB vs b namesb rtb)
+    (hea : C11R.Expandable a) (heb : C11R.Expandable b)
+    (hsame : ∀ k, k ∈ a.pattern.nodes.filterMap C11R.wildNum ↔ k ∈ b.pattern.nodes.filterMap C11R.wildNum) :
+    a.sub b (rta ++ C11R.fillN vs a.env a.pattern.nodes) = .ok (some (rtb ++ C11R.fillN vs b.env b.pattern.nodes)) ∧
+    b.sub a (rtb ++ C11R.fillN vs b.env b.pattern.nodes) = .ok (some (rta ++ C11R.fillN vs a.env a.pattern.nodes)) ∧
+    (∃ da, a.match (rta ++ C11R.fillN vs a.env a.pattern.nodes) = .ok (some da)) ∧
+    (∃ db, b.match (rtb ++ C11R.fillN vs b.env b.pattern.nodes) = .ok (some db)) := by
+  obtain ⟨rea, hrea⟩ := ha.compiles
+  obtain ⟨reb, hreb⟩ := hb.compiles
+  have hexa := C12B.inClassB_expOK ha.cls (by intro nm hn; cases hn)
+  have hexb := C12B.inClassB_expOK hb.cls (by intro nm hn; cases hn)
+  refine ⟨C12B.sub_fillB ha.env ha.cls hrea ha.noAndroidGroup ha.root ha.sep hexb (C11R.goodEnv_of hb.env heb.noAndroid)
+      hb.root heb.keys heb.noWildKey (fun k h => (hsame k).mpr h),
+    C12B.sub_fillB hb.env hb.cls hreb hb.noAndroidGroup hb.root hb.sep hexa (C11R.goodEnv_of ha.env hea.noAndroid)
+      ha.root hea.keys hea.noWildKey (fun k h => (hsame k).mp h), ?_, ?_⟩
+  · obtain ⟨g, hm, _⟩ := C12B.match_fillB ha.env ha.cls hrea ha.noAndroidGroup ha.root ha.sep
+    exact ⟨_, hm⟩
+  · obtain ⟨g, hm, _⟩ := C12B.match_fillB hb.env hb.cls hreb hb.noAndroidGroup hb.root hb.sep
+    exact ⟨_, hm⟩
+
+/-- non-vacuity: the pair "{l}a/{l}b/*.ftl" (l = "l10n/") and "l10n/{locale}/x/{locale}.ftl"-style patterns are in the
+    class (`C12B.repMatcher_ok`, `C12B.locMatcher_ok`); mapped onto the reference pattern "ref/a/b/*.ftl" and back, by
+    evaluation of the model -/
+example : subOutcome "{l}a/{l}b/*.ftl" [("l", "l10n/")] "ref/a/b/*.ftl" [] (T "l10n/a/l10n/b/c.d.ftl") = .text (T "ref/a/b/c.d.ftl") ∧
+    subOutcome "ref/a/b/*.ftl" [] "{l}a/{l}b/*.ftl" [("l", "l10n/")] (T "ref/a/b/c.d.ftl") = .text (T "l10n/a/l10n/b/c.d.ftl") ∧
+    subOutcome "{l}a/{l}b/*.ftl" [("l", "l10n/")] "ref/a/b/*.ftl" [] (T "l10n/a/other/b/c.d.ftl") = .none := by
+  decide +kernel
+
+/-- and the theorem applied: `repMatcher` mapped onto itself -/
+example : C12B.repMatcher.sub C12B.repMatcher (T "l10n/a/l10n/b/c.d.ftl") = .ok (some (T "l10n/a/l10n/b/c.d.ftl")) := by
+  obtain ⟨⟨na, a1⟩, a2⟩ := C12B.repMatcher_ok
+  have h := sub_roundtrip_backref_partial a1 a1 a2 a2 (fun _ => Iff.rfl)
+  rw [C12B.rep_fill] at h
+  exact h.1
+
+/-! ### `Matcher.__eq__`, `concat`, the regex cache (round 4) -/
+
+/-- `Pattern.__eq__` (with the node `__eq__`s: `Variable`, `AndroidLocale`, `Star`, `Starstar`, `Literal`) is structural
+    equality: same nodes, same root, same prefix length.  In particular it is an equivalence relation (this is the test
+    `ProjectFiles` folds duplicate rules with). -/
+theorem pattern_eq_iff (a b : Pattern) : Pattern.eq a b = true ↔ a = b := C11E.pattern_eq_iff a b
+
+/-- `Matcher.__eq__` is reflexive and symmetric (environments are dicts: distinct keys), `!=` is its negation ... -/
+theorem matcher_eq_refl_symm (a b : Matcher) (ha : KeysOnce a.env) (hb : KeysOnce b.env) :
+    Matcher.eq a a = true ∧ (Matcher.eq a b = true → Matcher.eq b a = true) ∧ Matcher.ne a b = !Matcher.eq a b :=
+  ⟨C11E.eq_refl a ha, C11E.eq_symm hb, rfl⟩
+
+/-- ... but NOT transitive ("additional environment settings in self or other are OK"): a matcher that does not bind
+    `locale` is equal to one that binds it to "de" and to one that binds it to "fr", which are not equal -/
+theorem matcher_eq_not_transitive_witness :
+    C11E.eqOutcome "l/{locale}/*.ftl" [("locale", "de")] "l/{locale}/*.ftl" [] = some true ∧
+    C11E.eqOutcome "l/{locale}/*.ftl" [] "l/{locale}/*.ftl" [("locale", "fr")] = some true ∧
+    C11E.eqOutcome "l/{locale}/*.ftl" [("locale", "de")] "l/{locale}/*.ftl" [("locale", "fr")] = some false :=
+  C11E.eq_not_transitive_witness
+
+/-- **Equal matchers that bind the same variable names match the same paths with the same captures**: if `a == b` and the
+    two environments have the same keys (in any order), then `match` (result and captures), `prefix`, `str`, the compiled
+    regex and `sub` onto any matcher agree. -/
+theorem matcher_eq_same_behaviour {a b : Matcher} (h : Matcher.eq a b = true)
+    (hk : (a.env.map (·.1)).Perm (b.env.map (·.1))) :
+    a.regexOf = b.regexOf ∧ (∀ path, a.match path = b.match path) ∧ a.prefix = b.prefix ∧ a.str = b.str ∧
+    (∀ (o : Matcher) path, a.sub o path = b.sub o path) :=
+  let ⟨hp, he⟩ := C11E.envEq_of_eq h hk
+  C11E.behave_congr hp he
+
+/-- What `==` does NOT imply (the "same keys" hypothesis is forced): `Matcher("{locale}/x", {"locale": "de"}) ==
+    Matcher("{locale}/x")`, but the first does not match "fr/x" and the second does.  And what `!=` does not imply: two
+    matchers that differ only in a variable the pattern never uses are unequal and match alike. -/
+theorem matcher_eq_limits_witness :
+    C11E.eqOutcome "{locale}/x" [("locale", "de")] "{locale}/x" [] = some true ∧
+    matchOutcome "{locale}/x" [("locale", "de")] none "fr/x" = .noMatch ∧
+    matchOutcome "{locale}/x" [] none "fr/x" = .groups [(T "locale", some (T "fr"))] ∧
+    C11E.eqOutcome "x/*" [("u", "1")] "x/*" [("u", "2")] = some false ∧
+    matchOutcome "x/*" [("u", "1")] none "x/a" = matchOutcome "x/*" [("u", "2")] none "x/a" := by decide +kernel
+
+/-- **`concat` behaves as if the resulting paths were joined** (its docstring): if the pattern of `a` is fully bound in the
+    merged environment (`a`'s environment updated with the other's; its expansion with `raise_missing=True`, root included, is
+    `sa`), then `str(a.concat(other))` is `sa` followed by the expansion of the other (unrooted) pattern in that environment;
+    and if `a` has no wildcard, the prefix of the concatenation is `sa` followed by the other's prefix. -/
+theorem concat_joins_paths {a r : Matcher} {o : ConcatArg} (h : a.concat o = .ok r) (hne : a.pattern.nodes ≠ []) {sa : Text}
+    (hfull : expandPat (expandVal (fuelFor r.env)) a.pattern r.env true = .ok sa) :
+    ∃ om : Matcher, o.toMatcher = .ok om ∧ r.env = dupdate a.env om.env ∧
+      r.str = (expandTop om.pattern r.env).map (fun sb => sa ++ sb) ∧
+      (a.pattern.prefixLen = a.pattern.nodes.length →
+        r.prefix = ((⟨om.pattern, r.env⟩ : Matcher).prefix).map (fun sb => sa ++ sb)) := by
+  obtain ⟨om, hom, _, _, _, henv, _⟩ := C11E.concat_inv h
+  obtain ⟨om1, h1, hs⟩ := C11E.concat_str h hne hfull
+  have e1 : om1 = om := by rw [hom] at h1; cases h1; rfl
+  subst e1
+  refine ⟨om1, hom, henv, hs, fun hnw => ?_⟩
+  obtain ⟨om2, h2, hp⟩ := C11E.concat_prefix h hne hnw hfull
+  have e2 : om2 = om1 := by rw [hom] at h2; cases h2; rfl
+  subst e2
+  exact hp
+
+/-- non-vacuity of `concat_joins_paths`, and its limit: `Matcher("l/{locale}/").concat("browser/*.ftl")` expands and
+    matches like the joined pattern; when both parts define the same group (two `*`, both numbered s1) the concatenation
+    cannot be compiled: `concat` does not renumber (re.error, the root cause of F12) -/
+theorem concat_witness :
+    C11E.concatOutcome "l/{locale}/" [("locale", "de")] "browser/*.ftl" "l/de/browser/a.ftl" =
+      (.text (T "l/de/browser/"), .groups [(T "locale", some (T "de")), (T "s1", some (T "a"))]) ∧
+    C11E.concatOutcome "l/*/" [] "browser/*.ftl" "l/x/browser/a.ftl" = (.text (T "l/"), .raised .reError) := by
+  decide +kernel
+
+/-- **The regex cache never goes stale** (`_cached_re` as explicit state, `PM.CMatcher`): a freshly constructed matcher has
+    an empty cache; `match` and `sub` on the object report exactly what the stateless model reports and leave the object
+    consistent (the cache, when filled, is the regex of the CURRENT pattern, environment and root); `with_env`,
+    `Matcher(m, env, root)` and `concat` return objects with an EMPTY cache, whatever the source had cached, so a derived
+    matcher behaves like one built afresh from its own pattern, environment and root. -/
+theorem cache_never_stale (c : CMatcher) (hc : C11C.CacheOK c) (other : CMatcher) (path : Text) :
+    ((c.match path).1 = c.m.match path ∧ (c.match path).2.m = c.m ∧ C11C.CacheOK (c.match path).2) ∧
+    ((c.sub other path).1 = c.m.sub other.m path ∧ (c.sub other path).2.m = c.m ∧ C11C.CacheOK (c.sub other path).2) ∧
+    (∀ d env root, c.rebuild env root = .ok d → d.cache = none ∧ c.m.rebuild env root = .ok d.m ∧ C11C.CacheOK d) ∧
+    (∀ d o, c.concat o = .ok d → d.cache = none ∧ c.m.concat o = .ok d.m ∧ C11C.CacheOK d) :=
+  ⟨C11C.match_refines hc path, C11C.sub_refines hc other path,
+   fun _ env root h => ⟨(C11C.derived_cache_empty.1 env root h).1, (C11C.derived_cache_empty.1 env root h).2,
+      C11C.derived_cacheOK.1 env root h⟩,
+   fun _ o h => ⟨(C11C.derived_cache_empty.2 o h).1, (C11C.derived_cache_empty.2 o h).2, C11C.derived_cacheOK.2 o h⟩⟩
+
+/-- a new matcher object is consistent (nothing cached) -/
+theorem cache_initially_empty (m : Matcher) : C11C.CacheOK (CMatcher.mk' m) := C11C.cacheOK_mk m
 
 end C11
